@@ -278,7 +278,7 @@ func c07Specs(thorough bool) []c07Spec {
 		codes = append(codes, c)
 	}
 	codes = append(codes, "CUSTOM", "unknown", "")
-	statuses := []int{400, 404, 416, 418, 500, 599}
+	statuses := []int{400, 404, 405, 416, 418, 500, 501, 599} // incl. statuses a client may read a meaning of its own into (405, 501)
 	if thorough {
 		statuses = nil
 		for s := 400; s <= 599; s++ {
@@ -344,7 +344,7 @@ func c07Check(r *vcore.Run) vcore.Coverage {
 		"details are compared as compacted JSON text (number spelling included)",
 	}
 	return vcore.Coverage{Evaluations: n, Nontrivial: int64(len(specs)), Exhaustive: true,
-		Rule: fmt.Sprintf("%d error specifications (19 codes incl. custom, lower-case, empty and a plain Go error x wrappers {none, fmt %%w, HTTP-status wrapper with 6 statuses quick / all of 400..599 thorough, fmt over HTTP wrapper} x 10 messages incl. status and code prefixes, body-limit sizes, % directives and control characters x 6 details incl. numbers float64 cannot hold) x %d carriers (GET, HEAD, PUT, POST, DELETE, list) x hops 1..3; evaluations = error round trips; non-trivial = specifications", len(specs)/len(c07Carriers), len(c07Carriers))}
+		Rule: fmt.Sprintf("%d error specifications (19 codes incl. custom, lower-case, empty and a plain Go error x wrappers {none, fmt %%w, HTTP-status wrapper with 8 statuses quick / all of 400..599 thorough, fmt over HTTP wrapper} x 10 messages incl. status and code prefixes, body-limit sizes, % directives and control characters x 6 details incl. numbers float64 cannot hold) x %d carriers (GET, HEAD, PUT, POST, DELETE, list) x hops 1..3; evaluations = error round trips; non-trivial = specifications", len(specs)/len(c07Carriers), len(c07Carriers))}
 }
 
 func c07Replay(r *vcore.Run, sub string, raw json.RawMessage) {
